@@ -99,3 +99,22 @@ Fixpoint trace (conv : atype -> pyval -> option pyval) (w : world) (es : list (e
     (outcome_tag o, Z.of_nat (length (w_snaps w')), Z.of_nat (length (w_store w')), Z.of_nat (length (current w')),
      all2 file_matches (current w') real, scan_ok (current w')) :: trace conv w' es'
   end.
+
+(* ---- explicit transactions (Model/SchemaTx.v) ---- *)
+Require Import DS.Model.SchemaTx.
+
+(* per transaction: (tags of its calls, #snapshots, #data files written by the library still on storage,
+                     #files in the current snapshot, every current file matches the observed one, scan_ok) *)
+Definition tx_obs := (list Z * Z * Z * Z * bool * bool)%type.
+
+Fixpoint tx_trace (conv : atype -> pyval -> option pyval) (w : world) (ts : list (txn * list real_file)) : list tx_obs :=
+  match ts with
+  | [] => []
+  | (t, real) :: ts' =>
+    match run_calls conv w tx_empty (t_handle t) (t_calls t) with
+    | (w1, q, tr) =>
+      let w' := end_tx w1 q (t_end t) in
+      (map fst tr, Z.of_nat (length (w_snaps w')), Z.of_nat (length (w_store w')), Z.of_nat (length (current w')),
+       all2 file_matches (current w') real, scan_ok (current w')) :: tx_trace conv w' ts'
+    end
+  end.
